@@ -82,3 +82,9 @@ CHECKS["C14"] = (
     "Held on the executions observed: every scenario script (and failing scripts) re-run with recv sizes 1/2/3/5/random, partial sends, injected would-blocks on reads/writes/both, four generator schedules, handshake flights re-fragmented to 1-4-byte/random records or coalesced, sender recordSize 1/7/64, AsyncStateMachine driving, and blocking calls from two threads over socketpair(); data delivered, negotiated parameters and secrets, resumption flag and exception/alert equal the baseline's. Known finding F11 (faithful non-blocking sendall) is reported.",
     "Same-seed DRBG and virtual clock make baseline and variants comparable down to the secrets; sendall of the scripted socket is blocking-equivalent in the main exploration.",
     "DESIGN.md section 3, C14")
+CHECKS["C16"] = (
+    "exploration",
+    "runtime monitoring: seeded post-handshake operation histories interleaved at single-step granularity, FIFO stream model, independent HKDF 'traffic upd' chain monitor, heartbeat echo and PHA identity monitors, negative control messages",
+    "Held on the histories observed: writes, polls, KeyUpdates (requested or not, crossing on the wire), post-handshake authentication (several outstanding), heartbeats and ticket delivery from either end over every TLS 1.3 suite (and heartbeat/tickets in TLS <= 1.2) leave data delivered exactly in order, both ends' traffic secrets equal and exactly one harness-computed 'traffic upd' step per KeyUpdate sent in that direction, echoes equal to requests and the client chain recorded by completed PHA only; malformed / unsolicited / mode-forbidden control messages draw a fatal alert (short-padding and over-long heartbeat requests are silently ignored).",
+    "PHA corruption is C05's subject; the driver's in-memory transport delivers whole records, so polls are abandoned only at record boundaries.",
+    "DESIGN.md section 3, C16")
